@@ -10,6 +10,9 @@ package stringy
 // encoded request. Oracle written from the property text: the first rule that applies decides
 // (wildcard; or name equals the command and, if it has patterns, one pattern matches the WHOLE
 // argument string; an invalid pattern denies); no applying rule => FAIL.
+// Second stage (138240 evaluations): two users that share their first group value (slices with
+// spare capacity) and differ in their last group, authorizers built one after the other; each
+// must evaluate user rules, then the rules of its own groups in order.
 
 import (
 	"context"
@@ -171,10 +174,52 @@ func TestTqvWitness(t *testing.T) {
 			}
 		}
 	}
+	// second stage: authorizers are built per user; users that share group definitions (the
+	// same slices, with spare capacity as a decoder may leave it) must each keep their own rule
+	// order: user rules, then the rules of each of THEIR groups in order — whatever other
+	// authorizers have been built before or after from the same group values.
+	n2 := 0
+	spare := func(rs []tqvRule) []config.Command {
+		c := toCfg(rs)
+		out := make([]config.Command, len(c), len(c)+8)
+		copy(out, c)
+		return out
+	}
+	for _, ul := range [][]tqvRule{nil, {{"show", []string{"running.*"}, true}}} {
+		for _, base := range [][]tqvRule{{templates[1]}, {templates[8]}, {templates[11]}, {templates[16], templates[3]}} {
+			baseG := config.Group{Name: "base", Commands: spare(base)}
+			for _, ga := range templates {
+				for _, gb := range templates {
+					ua := config.User{Name: "u", Scopes: []string{"s"}, Commands: spare(ul), Groups: []config.Group{baseG, {Name: "a", Commands: spare([]tqvRule{ga})}}}
+					ub := config.User{Name: "u", Scopes: []string{"s"}, Commands: spare(ul), Groups: []config.Group{baseG, {Name: "b", Commands: spare([]tqvRule{gb})}}}
+					ha, _ := New(tqvLog{}).New(ua)
+					hb, _ := New(tqvLog{}).New(ub)
+					for k, h := range []tq.Handler{ha, hb} {
+						last := ga
+						if k == 1 {
+							last = gb
+						}
+						all := append(append(append([]tqvRule(nil), ul...), base...), last)
+						for i := range reqs {
+							r := &tqvResp{}
+							h.Handle(r, tq.Request{Header: tq.Header{Type: tq.Authorize, SeqNo: 1}, Body: bodies[i], Context: context.Background()})
+							n2++
+							want := tqvOracle(all, reqs[i].cmd, argstrs[i])
+							got := r.status == tq.AuthorStatusPassAdd
+							if (got != want || r.n != 1) && len(bad) < 4 {
+								bad = append(bad, fmt.Sprintf("two users sharing group base %+v (user rules %+v); user %d has last group %+v, the other %+v; request cmd=%s args=%q: granted=%v want %v", base, ul, k+1, last, map[bool]tqvRule{true: ga, false: gb}[k == 1], reqs[i].cmd, reqs[i].args, got, want))
+							}
+						}
+					}
+				}
+			}
+		}
+	}
+	n += n2
 	out := map[string]interface{}{
 		"obligation":  "cmds/server/config/authorizers/stringy.CommandBasedAuthorizer.evaluate/bounded.first-rule",
-		"scenario":    "exhaustive small scope: rule lists (user <= 2, group <= 1) from 24 templates x 15 requests, end to end through Authorizer.New / Handle",
-		"evaluations": n, "mismatches": bad, "violated": len(bad) > 0 || n < 200000,
+		"scenario":    "exhaustive small scope: rule lists (user <= 2, group <= 1) from 24 templates x 15 requests, end to end through Authorizer.New / Handle; plus pairs of users sharing a first group (spare capacity) with 24 x 24 different last groups",
+		"evaluations": n, "mismatches": bad, "violated": len(bad) > 0 || n < 360000,
 	}
 	b, _ := json.Marshal(out)
 	fmt.Println("TQV-WITNESS " + string(b))
